@@ -260,3 +260,8 @@ func jsonReplay[C any](core func(C) []*Violation) func(raw json.RawMessage) ([]*
 		return core(c), nil
 	}
 }
+
+func jsonMarshal(v interface{}) (string, error) {
+	b, err := json.Marshal(v)
+	return string(b), err
+}
